@@ -296,7 +296,38 @@ class CoreProxy:
 
     def __init__(self, mod):
         self._mod = mod
-        self.mutated, self.second_differs = [], []
+        self.mutated, self.second_differs, self.layout_differs = [], [], []
+
+    @staticmethod
+    def _nrows(kw):
+        return max((len(v) for v in kw.values() if isinstance(v, np.ndarray) and v.ndim >= 1), default=0)
+
+    @staticmethod
+    def _layouts(kw):
+        """the same argument values in other memory layouts a caller may hold them in"""
+        arrs = {k: v for k, v in kw.items() if isinstance(v, np.ndarray) and v.ndim >= 1}
+
+        def fortran(v):
+            return np.asfortranarray(v)
+
+        def strided(v):
+            big = np.zeros((2 * len(v),) + v.shape[1:], v.dtype)
+            big[::2] = v
+            return big[::2]
+
+        def transposed(v):   # (n,3) view of a (3,n) array, as produced by np.array([X, Y, Z]).T
+            return np.array(v.T, order="C").T if v.ndim == 2 else v
+
+        def readonly(v):
+            w = v.copy()
+            w.flags.writeable = False
+            return w
+
+        for lname, f in (("fortran", fortran), ("strided", strided), ("transposed", transposed), ("readonly", readonly)):
+            yield lname, None, {**kw, **{k: f(v) for k, v in arrs.items()}}
+        n = max((len(v) for v in arrs.values()), default=0)
+        for i in range(min(n, 3)):     # single rows (1,k): views of the caller's arrays
+            yield f"row{i}", i, {**kw, **{k: v[i:i + 1] for k, v in arrs.items()}}
 
     def __getattr__(self, name):
         fn = getattr(self._mod, name)
@@ -311,6 +342,28 @@ class CoreProxy:
             out2 = fn(**kw)
             if not np.array_equal(np.asarray(out2), first, equal_nan=True):
                 self.second_differs.append(name)
+            if not self.mutated:
+                for lname, row, kw2 in self._layouts(kw):
+                    b2 = {k: np.array(v, copy=True) for k, v in kw2.items() if isinstance(v, np.ndarray)}
+                    try:
+                        o2 = np.asarray(fn(**kw2))
+                    except ValueError as e:
+                        if "read-only" in str(e):
+                            self.mutated.append(f"{name}:writes-into-read-only-input")
+                            continue
+                        raise
+                    for k, b in b2.items():
+                        if not np.array_equal(kw2[k], b, equal_nan=True):
+                            self.mutated.append(f"{name}:{k}[{lname}]")
+                    if row is None:
+                        want = first
+                    elif first.shape[0] == len(next(iter(b2.values()))) * 0 + self._nrows(kw):
+                        want = first[row:row + 1]
+                    else:   # component-first results (cylinder cores): rows are the last axis
+                        want = first[..., row:row + 1]
+                    sc = np.max(np.abs(np.nan_to_num(want))) if want.size else 0.0
+                    if o2.shape != want.shape or not np.allclose(o2, want, rtol=1e-12, atol=1e-13 * sc, equal_nan=True):
+                        self.layout_differs.append(f"{name}[{lname}]")
             return first
 
         return wrapper
@@ -400,6 +453,8 @@ def run_core(c, probe=None):
     tol = 1e-8 if name == "magnet_cylinder_segment_Hfield" else RTOL
     if core.second_differs:
         return f"second identical call of the core function differs: {core.second_differs}"
+    if core.layout_differs:
+        return f"core function result depends on the memory layout of its inputs: {sorted(set(core.layout_differs))}"
     return None if err <= tol else f"values differ rel={err:.3g}"
 
 
@@ -470,6 +525,8 @@ def run_core_cells(c):
         return f"core function modified its input arrays: {sorted(set(core.mutated))}"
     if core.second_differs:
         return f"second identical call of the core function differs: {core.second_differs}"
+    if core.layout_differs:
+        return f"core function result depends on the memory layout of its inputs: {sorted(set(core.layout_differs))}"
     if got.shape != ref.shape:
         return f"shape {got.shape} != {ref.shape}"
     fin = np.isfinite(got).all(1) & np.isfinite(ref).all(1)
